@@ -14,6 +14,14 @@ import PyaModel.Spec.Suppress
 
 `S|<src>`  → `py=<pyLines, encoded> tok=<tokLines, encoded>`
 
+`L|<all>|<enable>|<disable>|<files>|<path>|<code>|<default>`   the stack of layers
+    all     : `E` (--enable-all) | `D` (--disable-all) | `-`
+    enable / disable : comma-separated codes of -e / -d, or `-`
+    files   : `;`-separated configuration files in extend_config order (or `-`); a file is `@`-separated
+              sections, the first one the top-level entries, the others `module.path:entries`;
+              entries = comma-separated `code=0|1`, or `-`
+  → `en=<0|1> spec=<0|1> cmd=<-|0|1>`   (`C11.enabledStack` over `Cli.settings`, `C11.specEnabled`, `Cli.value`)
+
 `O|<insts>|<path>|<code>|<default>`
     insts : space-separated `name,value,applicable_to,from_cmd,priority` (applicable_to dot-joined or `-`)
   → `en=<0|1>`   (`C11.isErrorCodeEnabled`)
@@ -95,8 +103,37 @@ def handleE (off ls raw : String) (src : Option String) : String :=
     s!"{model} spec={showFails (specCheck en specLines raw)} D={d}{sl}"
   | _, _, _ => "bad-op"
 
+def parseEntries (t : String) : Option (List (String × Bool)) :=
+  if t == "-" || t == "" then some [] else
+    (t.splitOn ",").mapM fun e => match e.splitOn "=" with
+      | [k, v] => (parseBool v).map fun b => (k, b)
+      | _ => none
+
+def parseFile (t : String) : Option CfgFile :=
+  match t.splitOn "@" with
+  | [] => none
+  | top :: ovs => do
+    let top ← parseEntries top
+    let ovs ← ovs.mapM fun o => match o.splitOn ":" with
+      | [m, es] => (parseEntries es).map fun es => (m.splitOn ".", es)
+      | _ => none
+    some { top := top, overrides := ovs }
+
+def commaList (t : String) : List String := if t == "-" || t == "" then [] else t.splitOn ","
+
+def handleL (all en dis files path code dflt : String) : String :=
+  match (if files == "-" || files == "" then some [] else (files.splitOn ";").mapM parseFile), parseBool dflt with
+  | some files, some d =>
+    let c : Cli := { enableAll := all == "E", disableAll := all == "D", enable := commaList en, disable := commaList dis }
+    let path := if path == "-" then [] else path.splitOn "."
+    let b (x : Bool) := if x then "1" else "0"
+    let cmd := c.value [code] code
+    s!"en={b (enabledStack (c.settings [code]) files path (fun _ => d) code)} spec={b (specEnabled cmd files path (fun _ => d) code)} cmd={match cmd with | some v => b v | none => "-"}"
+  | _, _ => "bad-op"
+
 def handle (line : String) : String :=
   match line.splitOn "|" with
+  | ["L", all, en, dis, files, path, code, dflt] => handleL all en dis files path code dflt
   | ["E", off, ls, raw] => handleE off ls raw none
   | ["E", off, ls, raw, src] => handleE off ls raw (some src)
   | ["S", src] =>
